@@ -214,6 +214,13 @@ func (h *H) reuseCorpus() {
 	h.reuseOne(find(ts, "JoinAcceptPayload"), jaRFU, jaSix)
 	h.reuseOne(find(ts, "JoinAcceptPayload"), jaSix, jaRFU)
 	h.reuseOne(find(ts, "JoinAcceptPayload"), jaRFU, make([]byte, 12))
+	// RxDelay octet with RFU bits set (fix f9b46ea): only the low nibble is the delay
+	jaDelay := make([]byte, 12)
+	jaDelay[11] = 0x11
+	jaDelay2 := append([]byte{}, jaRFU...)
+	jaDelay2[11] = 0xf5
+	h.reuseOne(find(ts, "JoinAcceptPayload"), jaDelay, jaDelay2)
+	h.reuseOne(find(ts, "JoinAcceptPayload"), jaDelay2, jaDelay)
 	h.reuseOne(find(ts, "FHDR"), []byte{1, 2, 3, 4, 2, 0, 0, 0xaa, 0xbb}, []byte{1, 2, 3, 4, 0, 0, 0})
 	h.reuseOne(find(ts, "MACPayload"), []byte{1, 2, 3, 4, 2, 0, 0, 0xaa, 0xbb, 7, 0xcc}, []byte{1, 2, 3, 4, 0, 0, 0})
 	h.reuseOne(find(ts, "MACCommand:up=true"), []byte{3, 7}, []byte{2})
@@ -283,7 +290,11 @@ func (h *H) reuse(mult int) {
 			n = 12 * mult
 			gen = func() []byte {
 				if r.Bool() {
-					return r.Bytes(12)
+					b := r.Bytes(12)
+					if r.Bool() {
+						b[11] |= 0x10 << uint(r.Intn(4)) // RFU bits of the RxDelay octet
+					}
+					return b
 				}
 				b := r.Bytes(28)
 				b[27] = byte(r.Intn(2))
